@@ -18,7 +18,9 @@ E2 == {q \in UNION {Edits(p) : p \in Edits(Honest)} : Real(q)}
 
 NoNoise == [x \in Sides |-> <<0, 0, 0, 0>>]
 Both == [x \in Sides |-> TRUE]
-Sc(o, pc, ps, nz) == [offer |-> o, plan |-> [x \in Sides |-> IF x = "c" THEN pc ELSE ps], noise |-> nz]
+BothReal == [x \in Sides |-> "real"]
+ScK(k, o, pc, ps, nz) == [kind |-> k, offer |-> o, plan |-> [x \in Sides |-> IF x = "c" THEN pc ELSE ps], noise |-> nz]
+Sc(o, pc, ps, nz) == ScK(BothReal, o, pc, ps, nz)
 
 \* strict on both sides, one attacker action in either direction
 ScStrict1 == {Sc(Both, p, Honest, NoNoise) : p \in E1} \cup {Sc(Both, Honest, p, NoNoise) : p \in E1}
@@ -32,6 +34,16 @@ ScNoise == {Sc(o, Honest, Honest, [x \in Sides |-> IF x = "c" THEN nc ELSE ns]) 
 \* attacker against peers that did not negotiate strict mode (conformance of the model only; no property attached)
 ScWeak1 == {Sc(o, p, Honest, NoNoise) : o \in Offers \ {Both}, p \in E1} \cup {Sc(o, Honest, p, NoNoise) : o \in Offers \ {Both}, p \in E1}
 ScHonest == {Sc(o, Honest, Honest, NoNoise) : o \in Offers}
+\* one-sided offer: a legacy side L (no marker, never strict; its own IGNORE/DEBUG in any of its four slots) against a
+\* real side that offers strict KEX as golang.org/x/crypto/ssh always does; honest network
+ScOneSided == {ScK([x \in Sides |-> IF x = L THEN "legacy" ELSE "real"], [x \in Sides |-> x # L], Honest, Honest,
+                   [x \in Sides |-> IF x = L THEN nv ELSE <<0, 0, 0, 0>>]) : L \in Sides, nv \in NoiseVecs}
+
+\* the honest-network base set: both real (both offer / neither offers) and every one-sided scenario
+ScHonestAll == ScHonest \cup ScOneSided
+
+\* documentation config (ServerStrictRule = "own"): violated iff some reachable state violates S5 and S6 together
+S5orS6 == S5 \/ S6
 
 Outcome == [sc |-> sc, st |-> st, ping |-> gotPing, rseq |-> rseq, wseq |-> wseq, strict |-> strict, success |-> Success]
 Emit == Terminal => PrintT("TRACE " \o ToJson(Outcome))
